@@ -28,8 +28,8 @@ RULE = (
     "file set / entry point; distinct = distinct (world digest, op digest, history-prefix digest)."
 )
 TIERS = {
-    "quick": {"runs": 60, "budget_s": 45, "min_runs": 10, "run_timeout_s": 300},
-    "thorough": {"runs": 6000, "budget_s": 800, "min_runs": 150, "run_timeout_s": 600},
+    "quick": {"runs": 60, "budget_s": 45, "min_runs": 4, "run_timeout_s": 300},
+    "thorough": {"runs": 6000, "budget_s": 800, "min_runs": 40, "run_timeout_s": 600},
 }
 COMPONENTS_REAL = [
     "sqlfluff Linter (lint_paths, lint_string), cli lint/parse/render, simple API, lexer BlockTracker class state, config caches, rule packs, dialect modules",
